@@ -116,8 +116,13 @@ Section UniformEL.
 
   (** [H_conv] *)
   Hypothesis H_conv_wd : forall a i, WD uniform a i = wd_b a.
-  Hypothesis H_conv_back : forall (pd : nat -> idx -> R) (c : nat -> R),
-      (forall a i, pd a i = c a) -> forall s i, BACK pd s i = back_b c s.
+  (** the back-convolution of the (constant) partial derivatives OF THE UNIFORM FLUID is the bulk functional
+      derivative.  (Not claimed for arbitrary constants: on the DCT/DST convolvers a non-zero constant in a
+      VECTOR row is not mapped to zero - the sine transform of a constant - but the partial derivatives with
+      respect to vector weighted densities vanish in a uniform fluid.) *)
+  Hypothesis BACK_ext : forall pd pd' : nat -> idx -> R,
+      (forall a i, pd a i = pd' a i) -> forall s i, BACK pd s i = BACK pd' s i.
+  Hypothesis H_conv_back : forall s i, BACK (fun a _ => dphi wd_b a) s i = back_b (dphi wd_b) s.
   Hypothesis H_conv_bond : forall e : field, (forall s i, e s i = 1) -> forall s i, BOND e s i = 1.
   (** no external potential *)
   Hypothesis H_noext : forall s i, Vext s i = 0.
@@ -183,7 +188,8 @@ Section UniformEL.
 
   Lemma uniform_dfdrho s i : dfdrho uniform s i = dfdrho_bulk s.
   Proof.
-    unfold dfdrho, dfdrho_bulk. apply H_conv_back. intros a j. apply dphi_ext. intros a'. apply H_conv_wd.
+    unfold dfdrho, dfdrho_bulk. rewrite <- (H_conv_back s i). apply BACK_ext.
+    intros a j. apply dphi_ext. intros a'. apply H_conv_wd.
   Qed.
 
   Lemma uniform_exponent s i : el_exponent uniform s i = 0.
@@ -448,7 +454,8 @@ Proof.
   - apply uniform_residual.
     + intros f f' a H. apply H.
     + intros a i. reflexivity.
-    + intros pd c H s i. apply H.
+    + intros pd pd' H s i. apply H.
+    + intros s i. reflexivity.
     + intros e H s i. apply H.
     + reflexivity.
     + intros s. lra.
